@@ -173,6 +173,9 @@ impl Callable for Access {
                 bail!("Can not access a tuple with: {}", index)
             };
             if let Type::Tuple(mut t) = obj {
+                if *index < 0 || *index as usize >= t.len() {
+                    bail!("tuple index out of range: {}", index)
+                }
                 Ok(t.remove(*index as usize))
             } else {
                 bail!("Can not access type: {}", obj)
@@ -223,6 +226,9 @@ impl Callable for Access {
                 bail!("Can not access a tuple with: {}", index)
             };
             if let Value::Tuple(t) = obj {
+                if *index < 0 || *index as usize >= t.len() {
+                    bail!("tuple index out of range: {}", index)
+                }
                 t[*index as usize].value_of(ctx)
             } else {
                 bail!("Can not access type: {}", obj)
